@@ -8,6 +8,10 @@
  *              0: safety scenario (arbitrary stops / degenerate geometry), only Begin/Done are logged
  *        kind  0 linear (p1x p1y p2x p2y)   1 radial (c1x c1y r1 c2x c2y r2)   2 conical (cx cy angle)
  *        all coordinates 16.16, colours 16 bit
+ *   H claim kind nsteps {repeat}*nsteps wide nstops ... (rest as G)
+ *        repeat-switch history on ONE image object: create; then for every step set_repeat (repeat_i) and
+ *        composite; every step is logged exactly like a G scenario (GradBegin with that repeat, GradRow...,
+ *        plus "step" = index in the history)
  * events: GradBegin (before the composite), GradRow (one per scanline) / GradDone, End
  * A watchdog alarm turns a hang into a Crash event.
  */
@@ -20,6 +24,16 @@ static const char *kinds[] = { "linear", "radial", "conical" };
 static const char *rname[] = { "NONE", "NORMAL", "PAD", "REFLECT" };
 
 #define MAXSTOPS 64
+
+/* a float channel in 1/256 of an 8-bit step; values far outside [0,1] (and NaN) saturate so that the number
+ * stays a 32-bit integer in the trace */
+static long
+q256 (float f)
+{
+    if (!(f > -1000.0f && f < 1000.0f))
+	return f < 0 ? -99999999L : 99999999L;
+    return lrint (f * 65280.0);
+}
 
 static long long
 rd (FILE *in)
@@ -50,14 +64,20 @@ main (int argc, char **argv)
 	    if (fscanf (in, "%127s", name) != 1) return 3;
 	    vt_reset (name);
 	}
-	else if (kind[0] == 'G')
+	else if (kind[0] == 'G' || kind[0] == 'H')
 	{
-	    int claim = (int)rd (in), k = (int)rd (in), rep = (int)rd (in), wide = (int)rd (in);
-	    int ns = (int)rd (in), i, ng, hasT, dw, dh, g[6], m[9], x, y;
+	    int claim = (int)rd (in), k = (int)rd (in);
+	    int nsteps = kind[0] == 'H' ? (int)rd (in) : 1, reps[8], step, rep;
+	    int wide;
+	    int ns, i, ng, hasT, dw, dh, g[6], m[9], x, y;
 	    pixman_gradient_stop_t stops[MAXSTOPS];
 	    pixman_image_t *src = NULL, *dst;
 	    pixman_transform_t t;
 	    void *bits;
+	    if (nsteps < 1 || nsteps > 8) return 3;
+	    for (i = 0; i < nsteps; i++) reps[i] = (int)rd (in);
+	    wide = (int)rd (in);
+	    ns = (int)rd (in);
 	    if (ns > MAXSTOPS || ns < 0) return 3;
 	    for (i = 0; i < ns; i++)
 	    {
@@ -75,6 +95,31 @@ main (int argc, char **argv)
 	    dw = (int)rd (in);
 	    dh = (int)rd (in);
 
+	    alarm (20);
+	    if (k == 0)
+	    {
+		pixman_point_fixed_t p1 = { g[0], g[1] }, p2 = { g[2], g[3] };
+		src = pixman_image_create_linear_gradient (&p1, &p2, stops, ns);
+	    }
+	    else if (k == 1)
+	    {
+		pixman_point_fixed_t c1 = { g[0], g[1] }, c2 = { g[3], g[4] };
+		src = pixman_image_create_radial_gradient (&c1, &c2, g[2], g[5], stops, ns);
+	    }
+	    else
+	    {
+		pixman_point_fixed_t c = { g[0], g[1] };
+		src = pixman_image_create_conical_gradient (&c, g[2], stops, ns);
+	    }
+	    alarm (0);
+	    if (src && hasT)
+	    {
+		for (i = 0; i < 9; i++) t.matrix[i / 3][i % 3] = m[i];
+		pixman_image_set_transform (src, &t);
+	    }
+	    for (step = 0; step < nsteps; step++)
+	    {
+	    rep = reps[step];
 	    vt_begin ("GradBegin");
 	    vt_bool ("claim", claim);
 	    if (claim)
@@ -92,25 +137,11 @@ main (int argc, char **argv)
 		vt_bool ("wide", wide);
 		vt_int ("dw", dw);
 		vt_int ("dh", dh);
+		if (nsteps > 1) vt_int ("step", step);
 	    }
 	    vt_end ();
 
 	    alarm (20);
-	    if (k == 0)
-	    {
-		pixman_point_fixed_t p1 = { g[0], g[1] }, p2 = { g[2], g[3] };
-		src = pixman_image_create_linear_gradient (&p1, &p2, stops, ns);
-	    }
-	    else if (k == 1)
-	    {
-		pixman_point_fixed_t c1 = { g[0], g[1] }, c2 = { g[3], g[4] };
-		src = pixman_image_create_radial_gradient (&c1, &c2, g[2], g[5], stops, ns);
-	    }
-	    else
-	    {
-		pixman_point_fixed_t c = { g[0], g[1] };
-		src = pixman_image_create_conical_gradient (&c, g[2], stops, ns);
-	    }
 	    bits = calloc ((size_t)dw * dh, wide ? 16 : 4);
 	    if (wide)
 	    {
@@ -127,11 +158,6 @@ main (int argc, char **argv)
 	    if (src)
 	    {
 		pixman_image_set_repeat (src, (pixman_repeat_t)rep);
-		if (hasT)
-		{
-		    for (i = 0; i < 9; i++) t.matrix[i / 3][i % 3] = m[i];
-		    pixman_image_set_transform (src, &t);
-		}
 		pixman_image_composite32 (PIXMAN_OP_SRC, src, NULL, dst, 0, 0, 0, 0, 0, 0, dw, dh);
 	    }
 	    alarm (0);
@@ -157,8 +183,8 @@ main (int argc, char **argv)
 			{
 			    /* rgba_float: r, g, b, a in memory; unit conversion to 1/256 of an 8-bit step */
 			    float *f = (float *)bits + ((size_t)y * dw + x) * 4;
-			    fprintf (vt_out, "%s[%ld,%ld,%ld,%ld]", x ? "," : "", lrint (f[3] * 65280.0),
-				     lrint (f[0] * 65280.0), lrint (f[1] * 65280.0), lrint (f[2] * 65280.0));
+			    fprintf (vt_out, "%s[%ld,%ld,%ld,%ld]", x ? "," : "", q256 (f[3]),
+				     q256 (f[0]), q256 (f[1]), q256 (f[2]));
 			}
 			else
 			{
@@ -171,9 +197,10 @@ main (int argc, char **argv)
 		    vt_end ();
 		}
 	    }
-	    if (src) pixman_image_unref (src);
 	    pixman_image_unref (dst);
 	    free (bits);
+	    }
+	    if (src) pixman_image_unref (src);
 	}
 	else
 	    return 3;
